@@ -178,8 +178,18 @@ func runC02(c *Ctx) {
 	if f := c.need(p, "C02.W", "agent.forwardRequest"); f != nil {
 		scope = append(scope, f)
 	}
-	for _, pk := range []string{"agent/sessions", "agent/banner", "agent/websockets"} {
-		scope = append(scope, p.FuncsIn(pk)...)
+	for _, pk := range []string{"agent", "agent/sessions", "agent/banner", "agent/websockets"} {
+		for _, fn := range p.FuncsIn(pk) {
+			dup := false
+			for _, s := range scope {
+				if s == fn {
+					dup = true
+				}
+			}
+			if !dup {
+				scope = append(scope, fn)
+			}
+		}
 	}
 	flagGuard := func(i ssa.Instruction, flag string) bool {
 		for _, g := range GuardingIfs(i) {
